@@ -95,6 +95,7 @@ type correctableCallState struct {
 	data            CorrectableCallData
 	replyChan       <-chan response
 	expectedReplies int
+	enqueued        <-chan struct{} // closed when all requests have been enqueued
 }
 
 // CorrectableCall starts a new correctable quorum call and returns a new Correctable object.
@@ -105,26 +106,40 @@ func (c RawConfiguration) CorrectableCall(ctx context.Context, d CorrectableCall
 	md := &ordering.Metadata{MessageID: c.getMsgID(), Method: d.Method}
 
 	replyChan := make(chan response, expectedReplies)
-	for _, n := range c {
-		msg := d.Message
+	// Determine the per node messages first, so that the number of expected replies
+	// is known and the reply handler can run while the requests are being enqueued.
+	// Otherwise, servers that stream replies could fill up the reply channel before
+	// anyone reads from it, which blocks the receiver of that node.
+	msgs := make([]protoreflect.ProtoMessage, len(c))
+	for i, n := range c {
+		msgs[i] = d.Message
 		if d.PerNodeArgFn != nil {
-			msg = d.PerNodeArgFn(d.Message, n.id)
-			if !msg.ProtoReflect().IsValid() {
+			msgs[i] = d.PerNodeArgFn(d.Message, n.id)
+			if !msgs[i].ProtoReflect().IsValid() {
 				expectedReplies--
-				continue // don't send if no msg
+				msgs[i] = nil // don't send if no msg
 			}
 		}
-		n.channel.enqueue(request{ctx: ctx, msg: &Message{Metadata: md, Message: msg}}, replyChan, d.ServerStream)
 	}
 
 	corr := &Correctable{level: LevelNotSet, donech: make(chan struct{}, 1)}
+	enqueued := make(chan struct{})
 
 	go c.handleCorrectableCall(ctx, corr, correctableCallState{
 		md:              md,
 		data:            d,
 		replyChan:       replyChan,
 		expectedReplies: expectedReplies,
+		enqueued:        enqueued,
 	})
+
+	for i, n := range c {
+		if msgs[i] == nil {
+			continue
+		}
+		n.channel.enqueue(request{ctx: ctx, msg: &Message{Metadata: md, Message: msgs[i]}}, replyChan, d.ServerStream)
+	}
+	close(enqueued)
 
 	return corr
 }
@@ -140,9 +155,27 @@ func (c RawConfiguration) handleCorrectableCall(ctx context.Context, corr *Corre
 	)
 
 	if state.data.ServerStream {
-		for _, n := range c {
-			defer n.channel.deleteRouter(state.md.MessageID)
-		}
+		defer func() {
+			// Servers may still be streaming replies for this call. A receiver that
+			// is blocked handing over such a reply holds the router lock, so keep
+			// draining the reply channel until all routers have been removed.
+			stop := make(chan struct{})
+			go func() {
+				for {
+					select {
+					case <-state.replyChan:
+					case <-stop:
+						return
+					}
+				}
+			}()
+			// all routers must have been registered before they can be removed
+			<-state.enqueued
+			for _, n := range c {
+				n.channel.deleteRouter(state.md.MessageID)
+			}
+			close(stop)
+		}()
 		defer verifPoint("cor.exit", nil)
 	}
 
